@@ -193,8 +193,16 @@ func (s scen) run(r *vrt.Run) {
 		}
 	}
 	var opts []Option
+	if s.ctx == "live-first" {
+		// options in the other order: the context first, the worker bound after it
+		opts = append(opts, WithContext(context.WithValue(context.Background(), "k", "v")))
+	}
 	opts = append(opts, WithWorkers(s.workers))
 	switch s.ctx {
+	case "live":
+		// a context that is never done, given after the worker bound: each option sets its own
+		// member and leaves the other alone
+		opts = append(opts, WithContext(context.WithValue(context.Background(), "k", "v")))
 	case "done":
 		ctx, cancel := context.WithCancel(context.Background())
 		cancel()
@@ -243,7 +251,7 @@ func (s scen) run(r *vrt.Run) {
 		// completed but which was never mapped (checked now, at quiescence), before the reducer
 		// began to write, proves that the error was already recorded when the output was
 		// produced - the call must have returned it
-		if s.countCancels() > 0 && !s.has("panic") && s.gen == "ok" && s.red != "panic" && s.ctx == "bg" && strings.HasPrefix(outcome, "val:") && o.redWriteAt > 0 {
+		if s.countCancels() > 0 && !s.has("panic") && s.gen == "ok" && s.red != "panic" && (s.ctx == "bg" || strings.HasPrefix(s.ctx, "live")) && strings.HasPrefix(outcome, "val:") && o.redWriteAt > 0 {
 			for i, at := range o.sentAt {
 				if o.mapped[i] == 0 && at < o.redWriteAt {
 					r.Failf("cancel(err) had already taken effect (item %d was drained, never mapped, before the reducer wrote) but the call returned %s instead of the error", i, outcome)
@@ -404,7 +412,7 @@ func (s scen) check(r *vrt.Run, o *obs, outcome string) {
 		}
 	}
 	ctxDist := 0
-	if s.ctx != "bg" && usesReducer {
+	if s.ctx != "bg" && !strings.HasPrefix(s.ctx, "live") && usesReducer {
 		ctxDist = 1
 		allowed["err:"+context.DeadlineExceeded.Error()] = true
 	}
@@ -577,6 +585,12 @@ func scenarios() []scen {
 			}
 			add(scen{entry: "MapReduce", workers: w, mb: mb, red: "all1", bound: b})
 		}
+	}
+	for _, cm := range []string{"live", "live-first"} {
+		add(scen{entry: "MapReduce", workers: 1, mb: []string{"w1", "w1"}, red: "all1", ctx: cm, bound: lo})
+		add(scen{entry: "MapReduce", workers: 2, mb: []string{"w1", "w1", "w1"}, red: "all1", ctx: cm, bound: lo})
+		add(scen{entry: "MapReduceVoid", workers: 1, mb: []string{"w1", "w1"}, red: "all0", ctx: cm, bound: lo})
+		add(scen{entry: "ForEach", workers: 1, mb: []string{"w0", "w0"}, ctx: cm, bound: lo})
 	}
 	add(scen{entry: "MapReduce", workers: 2, mb: []string{"w1", "w1"}, red: "panic", bound: hi})
 	add(scen{entry: "MapReduce", workers: 1, mb: []string{}, red: "panic", bound: hi})
